@@ -1,14 +1,18 @@
 --------------------------- MODULE MC_StoreMigration ---------------------------
 (* Exhaustive: every schema version 1..5 with every stored / sampled table over  *)
 (* heights 1..N (v1 has no sampled ranges; sampled need not be within stored -   *)
-(* the migration must not care), pruned either empty or everything not stored.   *)
+(* the migration must not care), pruned either empty or everything not stored;   *)
+(* newer-version files with all, some, or none of today's tables.                *)
 EXTENDS StoreMigration, TLC
 
-Cases == {<<v, st, sa, pr, ap>> \in Versions \X (SUBSET U) \X (SUBSET U) \X BOOLEAN \X BOOLEAN :
+Cases == {<<v, st, sa, pr, ap, lay>> \in Versions \X (SUBSET U) \X (SUBSET U) \X BOOLEAN \X BOOLEAN \X Layouts :
              /\ (v = 1 => sa = {} /\ ~pr /\ ap)
              /\ (v = 2 => ~pr /\ (~ap => sa = {}))
-             /\ (v >= 3 => ap)}
-DbOf(c) == MkDb(c[1], c[2], c[3], IF c[4] THEN U \ c[2] ELSE {}, c[5])
+             /\ (v >= 3 => ap)
+             /\ (v <= 3 => lay = "full")                       \* older files were written by the known code
+             /\ (lay = "part" => ~pr)
+             /\ (lay = "min" => st = {} /\ sa = {} /\ ~pr)}
+DbOf(c) == MkDb(c[1], c[2], c[3], IF c[4] THEN U \ c[2] ELSE {}, c[5], c[6])
 
 MCInit == /\ \E c \in Cases : db = DbOf(c) /\ db0 = DbOf(c)
           /\ res = "none" /\ opens = 0
